@@ -2,6 +2,7 @@ import RustCcModel.Proofs.CtlSimp
 import RustCcModel.Proofs.WeakInv
 import RustCcModel.Proofs.WeakExact
 import RustCcModel.Proofs.CycFresh
+import RustCcModel.Proofs.MetaOnce
 /-! # C09 — weak/strong counts are exact; the weak side record lives as long as needed -/
 namespace RustCc.C09
 open World
@@ -99,5 +100,24 @@ theorem weak_count_exact (c : Cfg) (nH nW nK : Nat) (w : World) (h : ReachableK 
 example (c : Cfg) (op : Op) : ReachableK c 2 2 2
     { (World.init c 2 2 2) with stack := [.script [op] none none true, .catchTop], events := [], ret := .ok } :=
   .top _ op .init rfl rfl
+
+/-! ### Released at most once -/
+
+/-- **The side record of an allocation is released at most once**, in every history of the machine — any interleaving of
+operations, callbacks, collections, panics raised and caught (`HistA`: running and unwinding steps) — and once it has been
+released the allocation has no record, never gets a new one and is past (`Proofs/MetaOnce.lean`: every micro-step satisfies
+`#metaFree x + Ψ' = Ψ` for the potential `Ψ = [record exists] + [never had one]`, which starts at 1). Together with
+`side_record_needed` (released as soon as the allocation's hold and the last `Weak` are gone) and `weak_has_side_record`
+(never while a `Weak` exists): released exactly when both are gone, and only once. -/
+theorem side_record_released_at_most_once (c : Cfg) (nH nW nK : Nat) (w : World) (log : List Event)
+    (h : HistA c nH nW nK w log) (x : Id) :
+    log.count (Event.metaFree x) ≤ 1 ∧
+    (log.count (Event.metaFree x) = 1 → (w.metas x).live = false ∧ (w.heap x).hasMeta = true ∧ x < w.next) :=
+  histA_metaFree_once h x
+
+/-- Non-vacuity: the history that starts a first top-level operation. -/
+example (c : Cfg) (op : Op) : HistA c 2 2 2
+    { (World.init c 2 2 2) with stack := [.script [op] none none true, .catchTop], events := [], ret := .ok } [] :=
+  .top _ op [] .init rfl rfl
 
 end RustCc.C09
